@@ -136,6 +136,23 @@ fn main() {
                     Err(e) => format!("err {}", e),
                 }
             }
+            // untyped values encoded WITHOUT types (IDLArgs::to_bytes / IDLBuilder::value_arg): number literals are ints
+            "tu" => {
+                use candid::types::value::{IDLArgs, IDLField, IDLValue};
+                use candid::types::Label;
+                let num = IDLValue::Number(p[2].clone());
+                let val = match p[1].as_str() {
+                    "number" => num,
+                    "numrec" => IDLValue::Record(vec![IDLField { id: Label::Id(1), val: num }]),
+                    "numvec" => IDLValue::Vec(vec![num.clone(), num]),
+                    "numopt" => IDLValue::Opt(Box::new(num)),
+                    _ => return "bad".to_string(),
+                };
+                match IDLArgs::new(&[val]).to_bytes() {
+                    Ok(b) => format!("ok {}", hexe(&b)),
+                    Err(e) => format!("err {}", e),
+                }
+            }
             "tn" => {
                 let n: usize = p[2].parse().unwrap();
                 let r = match p[1].as_str() {
@@ -244,6 +261,8 @@ mod nat_ty {
     pub enum V2 { P(i16, u8), Q }
     #[derive(CandidType, Deserialize, Debug, PartialEq, Clone)]
     pub enum V3 { N(Option<V1>), S { list: Vec<u8>, t: (u8, u8) } }
+    #[derive(CandidType, Deserialize, Debug, PartialEq, Clone)]
+    pub struct R3<'a> { #[serde(borrow)] pub data: Option<&'a [u8]>, pub n: u8 }
 }
 
 fn native_case(k: usize, hexmsg: &str) -> String {
@@ -289,6 +308,9 @@ fn native_case(k: usize, hexmsg: &str) -> String {
         32 => one!(Box<Option<u8>>),
         33 => one!(V3),
         34 => one!(Result<u8, candid::Empty>),
+        35 => one!(Option<&[u8]>),
+        36 => two!(&[u8], u8),
+        37 => one!(R3),
         _ => "bad".to_string(),
     }
 }
